@@ -398,6 +398,8 @@ class Vector():
 			def caster(x):
 				if isinstance(x, datetime):
 					return x
+				if isinstance(x, date):
+					return datetime.combine(x, datetime.min.time())  # the date-to-datetime widening
 				return datetime.fromisoformat(x)
 		else:
 			caster = target_type  # either a type like str/int, or a callable
